@@ -294,12 +294,12 @@ theorem checkMotionLV_spec (o : Orc σ κ) (segs : σ → σ → Nat) (interp : 
     · rw [he]; simp only [Nat.sub_self]; rw [h0]; exact Or.inl rfl
     · exact Or.inr hc
 
-theorem obstacleV_sound (o : Orc σ κ) (segs : σ → σ → Nat) (interp : σ → σ → Nat → Nat → σ)
+theorem obstacleVOld_sound (o : Orc σ κ) (segs : σ → σ → Nat) (interp : σ → σ → Nat → Nat → σ)
     (h0 : ∀ a b n, interp a b 0 n = a) (c : Call) (n : Nat) (s : OS σ κ) :
-    (obstacleV o segs interp c n s).ok = true →
-    ∃ k, Validated s (obstacleV o segs interp c n s).os (obstacleV o segs interp c n s).st k := by
+    (obstacleVOld o segs interp c n s).ok = true →
+    ∃ k, Validated s (obstacleVOld o segs interp c n s).os (obstacleVOld o segs interp c n s).st k := by
   intro h
-  simp only [obstacleV] at h ⊢
+  simp only [obstacleVOld] at h ⊢
   split at h
   · simp at h
   · rename_i h1
@@ -314,6 +314,98 @@ theorem obstacleV_sound (o : Orc σ κ) (segs : σ → σ → Nat) (interp : σ 
       rcases sp.2 with he | ⟨c', hc⟩
       · rw [he]; exact ⟨k, (hk.ext_left e1).ext_right sp.1⟩
       · exact ⟨c', hc.ext_left (e1.trans hk.ext)⟩
+    · simp at h
+
+/-! ### ObstacleBased as fixed by 96c4da7bb -/
+
+/-- the loop with the `lastValid.second` numerator: on failure either it failed at the entry index (numerator `j - 1`,
+`state = interp (j-1)`) or the state written to `state` was answered `true` inside the loop; on success the numerator
+is untouched (0) and every test state up to index `j + k - 1` was answered `true` -/
+theorem motionLoopF_spec (o : Orc σ κ) (interp : σ → σ → Nat → Nat → σ) (s1 s2 : σ) (nd : Nat) :
+    ∀ (k j : Nat) (s : OS σ κ),
+    Ext s (motionLoopF o interp s1 s2 nd k j s).1.os ∧
+    ((motionLoopF o interp s1 s2 nd k j s).1.ok = false →
+      (((motionLoopF o interp s1 s2 nd k j s).2 = (j : Int) - 1 ∧
+        (motionLoopF o interp s1 s2 nd k j s).1.st = interp s1 s2 (j - 1) nd) ∨
+       ∃ c, Validated s (motionLoopF o interp s1 s2 nd k j s).1.os (motionLoopF o interp s1 s2 nd k j s).1.st c)) ∧
+    ((motionLoopF o interp s1 s2 nd k j s).1.ok = true →
+      ((motionLoopF o interp s1 s2 nd k j s).2 = 0 ∧
+       (k = 0 ∨ ∃ c, Validated s (motionLoopF o interp s1 s2 nd k j s).1.os (interp s1 s2 (j + k - 1) nd) c)))
+  | 0, j, s => by
+    simp only [motionLoopF]
+    exact ⟨Ext.refl s, fun h => by simp at h, fun _ => by simp⟩
+  | k + 1, j, s => by
+    simp only [motionLoopF]
+    split
+    · rename_i hv
+      have ih := motionLoopF_spec o interp s1 s2 nd k (j + 1) (ask o (interp s1 s2 j nd) s).2
+      have hval := validated_ask o (interp s1 s2 j nd) s hv
+      refine ⟨(ext_ask o _ s).trans ih.1, fun h => Or.inr ?_, fun h => ⟨(ih.2.2 h).1, Or.inr ?_⟩⟩
+      · rcases ih.2.1 h with ⟨_, he⟩ | ⟨c, hc⟩
+        · rw [he]; simp only [Nat.add_sub_cancel]
+          exact ⟨_, hval.ext_right ih.1⟩
+        · exact ⟨c, hc.ext_left (ext_ask o _ s)⟩
+      · rcases (ih.2.2 h).2 with hk | ⟨c, hc⟩
+        · subst hk
+          simp only [Nat.zero_add, Nat.add_sub_cancel]
+          exact ⟨_, hval.ext_right ih.1⟩
+        · have e : j + 1 + k - 1 = j + (k + 1) - 1 := by omega
+          rw [e] at hc
+          exact ⟨c, hc.ext_left (ext_ask o _ s)⟩
+    · exact ⟨ext_ask o _ s, fun _ => Or.inl ⟨rfl, rfl⟩, fun h => by simp at h⟩
+
+/-- after `checkMotion(temp, state, fail = (state, 0.0))` with at least one segment: `fail.second == 0.0`, or `state`
+holds a state that was answered `true` during the call.  No assumption on `interpolate`. -/
+theorem checkMotionF_spec (o : Orc σ κ) (segs : σ → σ → Nat) (interp : σ → σ → Nat → Nat → σ)
+    (s1 s2 : σ) (hseg : 1 ≤ segs s1 s2) (s : OS σ κ) :
+    Ext s (checkMotionF o segs interp s1 s2 s).1.os ∧
+    ((checkMotionF o segs interp s1 s2 s).2 = 0 ∨
+      ∃ c, Validated s (checkMotionF o segs interp s1 s2 s).1.os (checkMotionF o segs interp s1 s2 s).1.st c) := by
+  simp only [checkMotionF]
+  have sp := motionLoopF_spec o interp s1 s2 (segs s1 s2) (segs s1 s2 - 1) 1 s
+  split
+  · rename_i hok
+    have hs := sp.2.2 hok
+    split
+    · exact ⟨sp.1.trans (ext_ask o _ _), Or.inl rfl⟩
+    · refine ⟨sp.1.trans (ext_ask o _ _), ?_⟩
+      rcases hs.2 with hk | ⟨c, hc⟩
+      · left; omega
+      · have e : 1 + (segs s1 s2 - 1) - 1 = segs s1 s2 - 1 := by omega
+        rw [e] at hc
+        exact Or.inr ⟨c, hc.ext_right (ext_ask o _ _)⟩
+  · rename_i hok
+    refine ⟨sp.1, ?_⟩
+    rcases sp.2.1 (by simpa using hok) with ⟨he, _⟩ | hc
+    · left; rw [he]; simp
+    · exact Or.inr hc
+
+/-- the fixed ObstacleBased sampler is sound for every interpolation function; what remains assumed is that
+`validSegmentCount` of the pair is at least 1 (it is 0 only for two states at distance 0, where the code computes
+`lastValid.second = -1/0`) -/
+theorem obstacleV_sound (o : Orc σ κ) (segs : σ → σ → Nat) (interp : σ → σ → Nat → Nat → σ)
+    (hseg : ∀ a b, 1 ≤ segs a b) (c : Call) (n : Nat) (s : OS σ κ) :
+    (obstacleV o segs interp c n s).ok = true →
+    ∃ k, Validated s (obstacleV o segs interp c n s).os (obstacleV o segs interp c n s).st k := by
+  intro h
+  simp only [obstacleV] at h ⊢
+  split at h
+  · simp at h
+  · rename_i h1
+    simp only [h1] at h ⊢
+    split at h
+    · rename_i h2
+      simp only [h2, if_true]
+      have e1 := findInvalid_ext o c n s
+      obtain ⟨k, hk⟩ := uniformV_sound o .uniform n _ h2
+      have sp := checkMotionF_spec o segs interp (uniformV o .uniform n (findInvalid o c n s).os).st
+        (findInvalid o c n s).st (hseg _ _) (uniformV o .uniform n (findInvalid o c n s).os).os
+      split
+      · exact ⟨k, (hk.ext_left e1).ext_right sp.1⟩
+      · rename_i hne
+        rcases sp.2 with he | ⟨c', hc⟩
+        · exact absurd he hne
+        · exact ⟨c', hc.ext_left (e1.trans hk.ext)⟩
     · simp at h
 
 end OmplModel.SpaceBounds
